@@ -429,6 +429,23 @@ def expand(template_path, std=True):
                 end = match_close(src, ob, "{", "}") + 1
                 # tuple struct `struct X(..);`
             text = src[st:end]
+            # keep #[derive(..)] attributes that sit directly above the item
+            k = st
+            derives = []
+            while True:
+                prev_end = src.rfind("\n", 0, k - 1) if k > 0 else -1
+                line = src[prev_end + 1:k - 1] if k > 0 else ""
+                if line.strip().startswith("#[derive("):
+                    derives.insert(0, line.strip())
+                    k = prev_end + 1
+                elif line.strip().startswith("#[") or line.strip().startswith("///"):
+                    k = prev_end + 1
+                else:
+                    break
+                if k <= 0:
+                    break
+            if derives:
+                text = "\n".join(derives) + "\n" + text
             text = resolve_cfg(text, std, g.log)
             text = fix_vis(strip_attrs(text))
             for p in strips:
